@@ -551,6 +551,79 @@ func cookieOpen(tags string, sc *sealedCookie, cb, key []byte) {
 		lib.V(lib.I(int64(code)), lib.I(int64(res.Algo)), lib.B(res.S2C), lib.B(res.C2S)))
 }
 
+// cookieHistory opens several cookies one after the other with the real
+// Decode + Decrypt, keeps the returned ServerCookies, and reads them only after
+// the last opening (as a server does that holds keys of several clients).
+type openReq struct {
+	sc  *sealedCookie
+	cb  []byte
+	key []byte
+}
+
+func cookieHistory(tags string, reqs []openReq) {
+	type res struct {
+		code int
+		c    ntske.ServerCookie
+	}
+	var results []res
+	var ents, items []string
+	for _, q := range reqs {
+		var ec ntske.EncryptedServerCookie
+		x := res{}
+		func() {
+			defer func() {
+				if r := recover(); r != nil {
+					x.code = 100
+				}
+			}()
+			err := ec.Decode(q.cb)
+			if err != nil {
+				x.code = classify(err)
+				return
+			}
+			if keyOK(q.key) && len(ec.Nonce) == 16 {
+				ents = append(ents, openEntry(q.key, ec.Nonce, nil, true, ec.Ciphertext))
+			}
+			x.c, err = ec.Decrypt(q.key)
+			x.code = classify(err)
+		}()
+		results = append(results, x)
+		items = append(items, lib.L(lib.B(q.sc.cb), lib.B(q.sc.master), lib.I(int64(q.sc.algo)), lib.B(q.sc.s2c), lib.B(q.sc.c2s), lib.B(q.cb), lib.B(q.key)))
+	}
+	var outs []string
+	for _, x := range results {
+		if x.code != 0 {
+			x.c = ntske.ServerCookie{}
+		}
+		outs = append(outs, lib.L(lib.I(int64(x.code)), lib.I(int64(x.c.Algo)), lib.B(x.c.S2C), lib.B(x.c.C2S)))
+	}
+	w.Case("ck.hist", tags, lib.V(lib.L(items...), tab(ents...)), lib.L(outs...))
+}
+
+func cookieHistories(r *lib.Rng, ss []*session, n int) {
+	var all []*sealedCookie
+	for _, s := range ss {
+		all = append(all, s.sealed...)
+	}
+	for i := 0; i < n; i++ {
+		k := 2 + r.Intn(5)
+		var reqs []openReq
+		for j := 0; j < k; j++ {
+			sc := all[r.Intn(len(all))]
+			q := openReq{sc: sc, cb: sc.cb, key: sc.master}
+			switch r.Intn(6) {
+			case 0:
+				q.key = r.Bytes(32)
+			case 1:
+				q.cb = clone(sc.cb)
+				q.cb[r.Intn(len(q.cb))] ^= 1 << r.Intn(8)
+			}
+			reqs = append(reqs, q)
+		}
+		cookieHistory("nt,history,cookies", reqs)
+	}
+}
+
 func cookieTLV(tags string, cb []byte) {
 	var ec ntske.EncryptedServerCookie
 	code := 0
@@ -835,6 +908,11 @@ func exchanges(r *lib.Rng, n int) {
 			c := clone(a.b)
 			copy(c[52:52+32], q.uid)
 			deliver("nt,history,uidswap", all, cl, c)
+			// a unique identifier field with the outstanding identifier appended after the
+			// authenticator of an older response: not authenticated, must not count
+			uf := append([]byte{0x01, 0x04, 0x00, 0x24}, q.uid...)
+			deliver("nt,history,uidafter", all, cl, append(clone(a.b), uf...))
+			deliver("nt,history,uidafter", all, cl, append(append(clone(a.b), uf...), r.Bytes(28)...))
 		}
 		// wrong unique identifiers at the client
 		p := resps[i]
@@ -1126,6 +1204,13 @@ func replay(path string) {
 			cookieOpen(c[1], sc, a[5].B(), a[6].B())
 		case "ck.tlv":
 			cookieTLV(c[1], a[0].B())
+		case "ck.hist":
+			var reqs []openReq
+			for _, it := range a[0].l {
+				sc := &sealedCookie{cb: it.l[0].B(), master: it.l[1].B(), algo: uint16(it.l[2].I()), s2c: it.l[3].B(), c2s: it.l[4].B()}
+				reqs = append(reqs, openReq{sc: sc, cb: it.l[5].B(), key: it.l[6].B()})
+			}
+			cookieHistory(c[1], reqs)
 		case "ke.export":
 			exportCase(c[1])
 		default:
@@ -1179,6 +1264,14 @@ func main() {
 			fieldMutations(big, cl, r)
 			structural(big, cl, r)
 		}
+	}
+	{
+		ss := []*session{newSession(r), newSession(r), newSession(r)}
+		nh := 150
+		if thorough {
+			nh = 1500
+		}
+		cookieHistories(r, ss, nh)
 	}
 	nx := 6
 	if thorough {
